@@ -124,6 +124,11 @@ func installProbes(ns types.EnvType, p *Probe) {
 		}
 		return nil, nil
 	}})
+	// a LISP function running a tail loop of n iterations (the definition layer leaves its call unspecified: it is
+	// too long to evaluate there; with a stepper installed every tail step is a nested evaluation)
+	if ast, rerr := lisp.READ("(def long-loop! (fn [n] (if (< n 1) :done (long-loop! (- n 1)))))", nil, ns); rerr == nil {
+		_, _ = lisp.EVAL(context.Background(), ast, ns)
+	}
 	// through the reflective binder: error return, panic(error), panic(non-error)
 	call.CallOverrideFN(ns, "raise!", func() (types.MalType, error) { return nil, errRaise })
 	call.CallOverrideFN(ns, "boom!", func() (types.MalType, error) { panic(errBoom) })
